@@ -88,51 +88,64 @@ def run_core_stab(an, rep):
     return I
 
 
-def check_stab_per_step(prog, rep, qual='transformation.orthogonalize'):
-    """Each sweep loop re-scales, under use_stab, the core that just received
-    the triangular factor and feeds the exponent (P-stab-step)."""
-    fn = prog.func(qual)
-    mod = fn.module
-    loops = [n for n in paths.linear(fn.node.body) if isinstance(n, ast.For)]
-    if len(loops) != 2:
-        rep.error('%s: expected two sweep loops' % qual)
-        return
-    for li, (loop, off) in enumerate(zip(loops, ('+', '-'))):
-        ok = False
-        for st in loop.body:
-            if isinstance(st, ast.If) and isinstance(st.test, ast.Name) and \
-                    st.test.id == 'use_stab':
-                for b in st.body:
-                    if isinstance(b, ast.Assign) and \
-                            isinstance(b.targets[0], ast.Tuple) and \
-                            isinstance(b.value, ast.Call) and \
-                            (prog.dotted(b.value.func) or '').endswith(
-                                'core_stab'):
-                        from . import roles as _roles
-                        t0 = b.targets[0].elts[0]
-                        a0 = _roles.arg(prog, mod, b.value, 'G', 0)
-                        a1 = _roles.arg(prog, mod, b.value, 'p0', 1)
-                        same_core = a0 is not None and \
-                            ast.dump(t0).replace('Store', 'Load') == \
-                            ast.dump(a0)
-                        idx = paths.src(mod, t0.slice).replace(' ', '') \
-                            if isinstance(t0, ast.Subscript) else ''
-                        var = loop.target.id if isinstance(loop.target,
-                                                           ast.Name) else '?'
-                        right_core = idx == '%s%s1' % (var, off)
-                        p_fed = isinstance(a1, ast.Name) and \
-                            isinstance(b.targets[0].elts[1], ast.Name) and \
-                            a1.id == b.targets[0].elts[1].id
-                        ok = same_core and right_core and p_fed
-        rep.add('P-stab-step', qual, 'sweep loop %d (%s): per-step '
-                'core_stab of the core that received the weight'
-                % (li + 1, paths.src(mod, loop.iter)),
-                'ok' if ok else 'violation',
-                '' if ok else 'with use_stab every step of the sweep must '
-                're-scale the core that just received the triangular factor '
-                'and accumulate its exponent (otherwise the travelling core '
-                'overflows before a single final rescale)',
-                line=loop.lineno, file=mod.path)
+def check_stab_calls(rep, r, qual, what, expected):
+    """Semantic form of "re-scale at EVERY step": in the abstract run ``r`` of
+    ``qual`` with use_stab=True (d and the pivot concrete, so every loop is
+    unrolled) the calls of core_stab are counted from the interpreter's call
+    log.
+
+    * P-stab-step: there are at least ``expected`` of them (one per sweep step
+      / per core) and none re-scales a core whose typestate is 'orthonormal'
+      (the core that just received the triangular factor is the one that
+      grows; an orthonormal core has modulus <= 1).
+    * P-stab-every: none of them sits under a branch the interpreter could not
+      decide (a re-scaling that depends on a runtime value is skipped for some
+      inputs)."""
+    I = r.I
+    fn_ = I.prog.func(qual)
+    loc = dict(line=fn_.node.lineno, file=fn_.module.path)
+    calls = [(a, m) for (q, a, _), m in zip(I.call_log, I.call_meta)
+             if q == 'core.core_stab']
+    indefinite = any(m['weak'] > 0 for a, m in calls)
+    n = len(calls)
+    if indefinite:
+        st, detail = 'unknown', 'a re-scaling sits in a loop that was not ' \
+            'unrolled: the count is not definite'
+    elif n >= expected:
+        st, detail = 'ok', ''
+    else:
+        st, detail = 'violation', 'with use_stab every step must re-scale ' \
+            'the travelling core and accumulate its exponent: %d core_stab ' \
+            'call(s) for %d step(s) (%s) -- the un-scaled steps let the ' \
+            'running product over- / underflow before the next re-scaling' \
+            % (n, expected, what)
+    rep.add('P-stab-step', qual, '%s: %d re-scalings for %d steps'
+            % (what, n, expected), st, detail, **loc)
+    wrong = [i for i, (a, m) in enumerate(calls)
+             if a.get('G') is not None and a['G'].k == 'arr' and
+             a['G'].orth in ('cols3', 'rows3', 'cols', 'rows')]
+    if calls:
+        rep.add('P-stab-step', qual, '%s: the re-scaled core is the one that '
+                'received the weight' % what,
+                'violation' if wrong else 'ok',
+                '' if not wrong else 'core_stab call(s) %s re-scale a core '
+                'with orthonormal columns / rows (modulus <= 1) instead of '
+                'the neighbour that just received the triangular factor, '
+                'which keeps growing' % wrong, **loc)
+        cond = [i for i, (a, m) in enumerate(calls) if m['cond'] > 0]
+        # definitely data dependent: an open undecided test reads a float /
+        # an array (a magnitude); any other undecided guard stays unknown
+        mag = [i for i, (a, m) in enumerate(calls)
+               if any(ks & {'float', 'arr'} for t, ks in m['tests'])]
+        rep.add('P-stab-every', qual, '%s: re-scaling depends on use_stab '
+                'only' % what, 'violation' if mag else
+                ('unknown' if cond else 'ok'),
+                '' if not cond else 'core_stab call(s) %s are executed under '
+                'a test on a runtime value (%s): the skipped steps let the '
+                'running product over- / underflow for tensors of '
+                'representable norm' % (cond, sorted({
+                    ast.unparse(t) for a, m in calls for t, ks in m['tests']})),
+                **loc)
 
 
 def check_saturation(prog, rep, qual='act_two.accuracy'):
@@ -175,39 +188,3 @@ def check_saturation(prog, rep, qual='act_two.accuracy'):
         rep.error('%s: exponent difference power not found' % qual)
 
 
-def check_stab_unconditional(prog, rep, quals=('act_two.mul_scalar',
-                                              'transformation.orthogonalize')):
-    """Inside a loop over the cores the re-scaling ``core_stab`` is executed at
-    EVERY step when the flag is set: it depends on ``use_stab`` only (a step
-    that is skipped lets the running product over- / underflow before the
-    next re-scaling)."""
-    for qual in quals:
-        fn = prog.func(qual)
-        mod = fn.module
-        n = 0
-        for node in ast.walk(fn.node):
-            if not (isinstance(node, ast.Call) and
-                    (prog.dotted(node.func) or '').endswith('core_stab')):
-                continue
-            # only calls inside a loop
-            cur = getattr(node, '_parent', None)
-            loop = None
-            while cur is not None and cur is not fn.node:
-                if isinstance(cur, (ast.For, ast.While)) and loop is None:
-                    loop = cur
-                cur = getattr(cur, '_parent', None)
-            if loop is None:
-                continue
-            n += 1
-            # tests between the loop head and the call (inside one step)
-            gs = paths.guard_atoms(paths.guards_of(loop, node))
-            extra = [paths.src(mod, t) for t, pol in gs
-                     if not (isinstance(t, ast.Name) and t.id == 'use_stab'
-                             and pol)]
-            rep.add('P-stab-every', qual, 'core_stab call #%d in the core '
-                    'loop depends on use_stab only' % n,
-                    'ok' if not extra else 'violation',
-                    '' if not extra else 'the re-scaling is skipped under %s: '
-                    'the un-scaled step lets the running product over- / '
-                    'underflow for tensors of representable norm' % extra,
-                    line=node.lineno, file=mod.path)
